@@ -112,6 +112,7 @@ class Ev:
         self.unknown_callees = {}  # callee path -> count (calls with no axiom)
         self.call_sites = []     # (caller path, callee path, span, kind)
         self.paths = 0
+        self.all_obls = []       # every obligation met on any explored path (including paths that end in the panic)
         self.frames = {}
         self.abstract = {}       # local fn path -> name: treat calls as uninterpreted pure functions
 
@@ -120,6 +121,7 @@ class Ev:
         """Analyse fn `path` with symbolic parameters.  Returns list of outcomes
         dict(pc, ret, store, obls, params)."""
         fn = self.facts.fns[path]
+        self.axioms.CURRENT_EV = self
         st = St()
         params = []
         names = [l['name'] for l in fn['locals']]
@@ -290,8 +292,10 @@ class Ev:
         if k == 'assert':
             c = self.operand(fr, t['cond'], st)
             ok = c if t['expected'] else T.bnot(c)
-            st.obls.append({'kind': t['msg']['k'], 'site': t['span'], 'fn': fr.fn['path'], 'cond': ok,
-                            'pc': list(st.pc), 'detail': t['msg'].get('op') or t['msg'].get('dbg') or ''})
+            ob = {'kind': t['msg']['k'], 'site': t['span'], 'fn': fr.fn['path'], 'cond': ok,
+                  'pc': list(st.pc), 'detail': t['msg'].get('op') or t['msg'].get('dbg') or '', 'exp': t.get('exp', False)}
+            st.obls.append(ob)
+            self.all_obls.append(ob)
             if ok == T.FALSE:
                 return []
             if ok != T.TRUE and ok not in st.pc:
@@ -350,6 +354,17 @@ class Ev:
                     continue
             outs.extend(self.run(fr, tg, s2, b))
         return outs
+
+    def note_discr(self, d, adt):
+        T.TYPES[d] = adt
+        T.NUMERIC[d] = True
+        a = self.facts.adts.get(adt)
+        if a is not None:
+            ds = [x['discr'] for x in a['variants'] if x['discr'] is not None]
+            if ds:
+                T.BOUNDS[d] = (min(ds), max(ds))
+        elif adt in STD_ENUM_VARIANTS:
+            T.BOUNDS[d] = (0, len(STD_ENUM_VARIANTS[adt]) - 1)
 
     def discr_names(self, v):
         """discriminant value -> variant name for the enum whose discriminant term v is"""
@@ -476,6 +491,8 @@ class Ev:
             T.TYPES[v] = tys.show(t) if t[0] != 'path' else t[1]
             if t[0] == 'path' and t[1] in solver.INT_RANGES:
                 T.NUMERIC[v] = True
+            if t[0] == 'array' and t[2].isdigit():
+                T.KNOWN_LEN[v] = int(t[2])
 
     def lvalue(self, fr, p, st):
         """-> (loc, path) of the storage a place denotes"""
@@ -636,7 +653,7 @@ class Ev:
             if v[0] == 'opaque':
                 return v
             d = ('discr', v)
-            T.TYPES[d] = adt
+            self.note_discr(d, adt)
             return d
         if k == 'agg':
             ops = [self.operand(fr, o, st) for o in rv['ops']]
@@ -682,7 +699,7 @@ class Ev:
                     adt, _ = self.adt_of_type(tys.parse(src))
                     if adt in self.facts.adts:
                         d = ('discr', v)
-                        T.TYPES[d] = adt
+                        self.note_discr(d, adt)
                         return d
                 return ('opaque', 'cast %s -> %s' % (src, dst))
             if rs[0] >= rd[0] and rs[1] <= rd[1]:
@@ -718,8 +735,10 @@ class Ev:
                 return ('tuple', (r, T.bnot(rng)))
             if ty in solver.INT_RANGES and rng != T.TRUE:
                 # unchecked / release arithmetic: value is exact only if it cannot wrap
-                st.obls.append({'kind': 'wrap', 'site': (stmt or {}).get('span', '?'), 'fn': fr.fn['path'], 'cond': rng,
-                                'pc': list(st.pc), 'detail': base})
+                ob = {'kind': 'wrap', 'site': (stmt or {}).get('span', '?'), 'fn': fr.fn['path'], 'cond': rng,
+                      'pc': list(st.pc), 'detail': base, 'exp': (stmt or {}).get('exp', False)}
+                st.obls.append(ob)
+                self.all_obls.append(ob)
             return r
         if base in ('Eq', 'Ne', 'Lt', 'Le', 'Gt', 'Ge'):
             if ty == 'bool' and base in ('Eq', 'Ne'):
